@@ -527,6 +527,10 @@ func (c *Ctx) Registry() (reg *ssa.Global, entries []Builtin, other []string) {
 				return
 			}
 			if !strings.HasPrefix(f.Name(), "init") {
+				if es, okH := c.registrarEntries(f, call); okH {
+					entries = append(entries, es...)
+					return
+				}
 				other = append(other, "Store on registry outside init in "+c.P.FuncKey(f))
 				return
 			}
@@ -626,24 +630,21 @@ func (c *Ctx) rangedTableEntries(k, v ssa.Value, pos string) ([]Builtin, bool) {
 
 // rangedStructTableEntries: key and value are two fields of the element of a locally built slice of structs that is
 // being ranged over (`for _, e := range []struct{name string; fn interface{}}{{"abs", funAbs}, ...} { reg.Store(e.name, e.fn) }`).
-func (c *Ctx) rangedStructTableEntries(k, v ssa.Value) ([]Builtin, bool) {
+// tableElemField: x is field #fld of the element being visited in a ranged slice of structs; base is the slice.
+func tableElemField(x ssa.Value) (base ssa.Value, fld int, ok bool) {
 	// field access on the ranged element: ssa.Field on a loaded struct, or a load of FieldAddr(IndexAddr)
-	elemField := func(x ssa.Value) (arr *ssa.Alloc, fld int, ok bool) {
+	{
 		switch y := x.(type) {
 		case *ssa.Field:
 			if u, isU := y.X.(*ssa.UnOp); isU {
 				if ia, isIA := u.X.(*ssa.IndexAddr); isIA {
-					if a := localArrayLiteral(ia.X); a != nil {
-						return a, y.Field, true
-					}
+					return ia.X, y.Field, true
 				}
 			}
 		case *ssa.UnOp:
 			if fa, isFA := y.X.(*ssa.FieldAddr); isFA {
 				if ia, isIA := fa.X.(*ssa.IndexAddr); isIA {
-					if a := localArrayLiteral(ia.X); a != nil {
-						return a, fa.Field, true
-					}
+					return ia.X, fa.Field, true
 				}
 				// the element copied into the range variable first: `f := arr[i]; f.name`
 				if cell, isCell := fa.X.(*ssa.Alloc); isCell {
@@ -658,9 +659,7 @@ func (c *Ctx) rangedStructTableEntries(k, v ssa.Value) ([]Builtin, bool) {
 					if n == 1 {
 						if u, isU := src.(*ssa.UnOp); isU {
 							if ia, isIA := u.X.(*ssa.IndexAddr); isIA {
-								if a := localArrayLiteral(ia.X); a != nil {
-									return a, fa.Field, true
-								}
+								return ia.X, fa.Field, true
 							}
 						}
 					}
@@ -669,11 +668,23 @@ func (c *Ctx) rangedStructTableEntries(k, v ssa.Value) ([]Builtin, bool) {
 		}
 		return nil, 0, false
 	}
-	ak, fk, ok1 := elemField(k)
-	av, fv, ok2 := elemField(v)
-	if !ok1 || !ok2 || ak != av {
+}
+
+func (c *Ctx) rangedStructTableEntries(k, v ssa.Value) ([]Builtin, bool) {
+	bk, fk, ok1 := tableElemField(k)
+	bv, fv, ok2 := tableElemField(v)
+	if !ok1 || !ok2 || bk != bv {
 		return nil, false
 	}
+	ak := localArrayLiteral(bk)
+	if ak == nil {
+		return nil, false
+	}
+	return c.structTableEntries(ak, fk, fv)
+}
+
+// structTableEntries: the (name, value) pairs of a slice-of-structs literal whose backing array is ak.
+func (c *Ctx) structTableEntries(ak *ssa.Alloc, fk, fv int) ([]Builtin, bool) {
 	keys := map[int64]string{}
 	vals := map[int64]ssa.Value{}
 	poss := map[int64]string{}
@@ -724,6 +735,79 @@ func (c *Ctx) rangedStructTableEntries(k, v ssa.Value) ([]Builtin, bool) {
 	}
 	if len(out) == 0 || len(out) != len(vals) {
 		return nil, false
+	}
+	return out, true
+}
+
+// registrarEntries: f is a registration helper - it stores into the registry what it is handed, and it is called from
+// init functions only: `func register(name string, fn interface{})`, or `func storeAll(list []entry)` ranging over its
+// parameter. The entries are read off the call sites.
+func (c *Ctx) registrarEntries(f *ssa.Function, store *ssa.Call) ([]Builtin, bool) {
+	strip := func(x ssa.Value) ssa.Value {
+		for {
+			switch y := x.(type) {
+			case *ssa.MakeInterface:
+				x = y.X
+				continue
+			case *ssa.ChangeInterface:
+				x = y.X
+				continue
+			}
+			return x
+		}
+	}
+	var sites []*ssa.Call
+	for _, g := range c.P.ModFuncs {
+		for _, cs := range callsTo(g, f) {
+			if !isInitFn(g) {
+				return nil, false
+			}
+			sites = append(sites, cs)
+		}
+	}
+	if len(sites) == 0 {
+		return nil, false
+	}
+	// no other use of the helper as a value
+	k, v := strip(store.Call.Args[1]), strip(store.Call.Args[2])
+	var out []Builtin
+	if pk, ok := k.(*ssa.Parameter); ok {
+		pv, ok := v.(*ssa.Parameter)
+		if !ok {
+			return nil, false
+		}
+		ik, iv := paramIndex(pk), paramIndex(pv)
+		for _, cs := range sites {
+			kc, ok := strip(cs.Call.Args[ik]).(*ssa.Const)
+			if !ok || kc.Value == nil || kc.Value.Kind() != constant.String {
+				return nil, false
+			}
+			val := strip(cs.Call.Args[iv])
+			e := Builtin{Name: constant.StringVal(kc.Value), Val: val, Pos: c.P.InstrPos(cs)}
+			e.Fn = fnValue(val)
+			out = append(out, e)
+		}
+		return out, true
+	}
+	bk, fk, ok1 := tableElemField(k)
+	bv, fv, ok2 := tableElemField(v)
+	if !ok1 || !ok2 || bk != bv {
+		return nil, false
+	}
+	p, ok := bk.(*ssa.Parameter)
+	if !ok {
+		return nil, false
+	}
+	for _, cs := range sites {
+		ak := localArrayLiteral(cs.Call.Args[paramIndex(p)])
+		if ak == nil {
+			return nil, false
+		}
+		es, ok := c.structTableEntries(ak, fk, fv)
+		if !ok {
+			return nil, false
+		}
+		out = append(out, es...)
 	}
 	return out, true
 }
